@@ -294,4 +294,19 @@ def tagsEmbed : List Token → List Token → Bool
 def oracleMono (outA outB : Bytes) : Bool :=
   tagsEmbed ((tokenize outA).filter isTag) ((tokenize outB).filter isTag)
 
+/-! ### C20: classification of a known finding -/
+
+/-- the same tokens, except that within a tag rel / target may sit at different positions among
+    the (otherwise identically ordered) attributes -/
+def sameUpToForcedAttrOrder : List Token → List Token → Bool
+  | [], [] => true
+  | x :: xs, y :: ys =>
+    x.tt == y.tt && x.data == y.data &&
+    (x.attrs.filter fun a => a.key != b!"rel" && a.key != b!"target") ==
+      (y.attrs.filter fun a => a.key != b!"rel" && a.key != b!"target") &&
+    (x.attrs.filter fun a => a.key == b!"rel") == (y.attrs.filter fun a => a.key == b!"rel") &&
+    (x.attrs.filter fun a => a.key == b!"target") == (y.attrs.filter fun a => a.key == b!"target") &&
+    sameUpToForcedAttrOrder xs ys
+  | _, _ => false
+
 end BM.Spec
